@@ -1655,3 +1655,83 @@ pub fn e3_pairs(ctx: &Ctx, name: &str, st: &mut Local, f: Sink) {
     e.bound = "all ordered pairs of 5 dynamic blocks (same item list with different HLIT/HDIST split, literal run-length coding, HCLEN slack, default header) x {adjacent, stored / fixed / empty dynamic block in between}".into();
     e.exhaustive = true;
 }
+
+/// E3hist: batches of many *distinct* dynamic headers processed one after the other on one fresh
+/// thread. A case is a whole batch, so state that survives a block or a call (for instance a table
+/// cache keyed by a short hash of the header) is exercised with enough distinct keys to collide, and
+/// the case replays alone. `f` is called for every stream of the batch, on the batch's own thread.
+pub fn e3_history(ctx: &Ctx, name: &str, batches: usize, per_batch: usize, st: &mut Local, f: &(dyn Fn(&StreamCase) -> Option<String> + Sync)) {
+    if !ctx.engine_on(name) {
+        return;
+    }
+    let vecs = complete_vectors(7, 7);
+    for b in 0..batches {
+        let i = b as u64;
+        if ctx.sel.mine(i) {
+            let e = st.eng(name);
+            e.states += per_batch as u64;
+            e.transitions += per_batch as u64;
+            e.nontrivial += 1;
+        }
+        if !ctx.take(name, i) {
+            continue;
+        }
+        st.sample(name, || format!("#{} batch of {} distinct dynamic headers (6 literals out of 200 x {} complete length vectors)", i, per_batch, vecs.len()));
+        ctx.begin(name, i, 600_000);
+        let bad: Option<(usize, String, Vec<u8>)> = std::thread::scope(|sc| {
+            sc.spawn(|| {
+                for k in 0..per_batch {
+                    let g = b * per_batch + k;
+                    // 6 distinct literals from the combinatorial number system over 200 symbols
+                    let mut rem = g / vecs.len();
+                    let v = &vecs[g % vecs.len()];
+                    let mut lits = [0usize; 6];
+                    let mut lo = 0usize;
+                    for slot in 0..6 {
+                        let span = 200 - lo - (5 - slot);
+                        lits[slot] = lo + rem % span;
+                        rem /= span;
+                        lo = lits[slot] + 1;
+                        if lo + (5 - slot) > 200 {
+                            lo = 200 - (5 - slot);
+                        }
+                    }
+                    lits.sort();
+                    let mut uniq = lits.to_vec();
+                    uniq.dedup();
+                    if uniq.len() != 6 {
+                        continue;
+                    }
+                    let mut ll = vec![0u8; 257];
+                    for (j, &sy) in uniq.iter().enumerate() {
+                        ll[sy] = v[j];
+                    }
+                    ll[256] = v[6];
+                    let toks: Vec<Tok> = uniq.iter().map(|&x| Tok::Lit(x as u8)).collect();
+                    let hdr = header_from_lengths(&ll, &[1, 1]);
+                    let stream = Stream { blocks: vec![Block::Dyn { toks, hdr }], final_pad: 0 };
+                    let bytes = serialise(&stream);
+                    let case = StreamCase { stream_len: bytes.len(), plain: Some(uniq.iter().map(|&x| x as u8).collect()), bytes, descr: String::new() };
+                    if k % 64 == 0 {
+                        validate_model(&case);
+                    }
+                    if let Some(why) = f(&case) {
+                        return Some((k, why, case.bytes));
+                    }
+                }
+                None
+            })
+            .join()
+            .unwrap_or(None)
+        });
+        ctx.end();
+        match bad {
+            None => st.outcome(name, "batch-history-independent"),
+            Some((k, why, bytes)) => st.violation(ctx.viol(name, i, "history-dependent-result", None,
+                format!("stream #{} of the batch (after {} other dynamic headers on the same thread): {}", k, k, why), &bytes)),
+        }
+    }
+    let e = st.eng(name);
+    e.bound = format!("{} batches x {} distinct dynamic headers each (6 of 200 literals x {} complete code-length vectors), every batch on one fresh thread", batches, per_batch, vecs.len());
+    e.exhaustive = true;
+}
